@@ -14,6 +14,7 @@ load_binary:
   * the unit-test outputs are what sorting / relocating / patching mean (sorted, same elements, indices follow).
 -/
 import NV.Common.Proto
+import NV.C17.BinFile
 
 namespace NV.C17
 
@@ -191,6 +192,7 @@ structure Decl where
   inherits : List String
   save : Bool := false              -- #pragma save_binary in force at the end of the file
   ssw : Option Nat := none          -- number of string switches in the source (declared by the generator)
+  refuse : Bool := false            -- the master refuses to have this program saved
   deriving Repr, Inhabited
 
 structure JState where
@@ -211,6 +213,14 @@ structure JState where
   foreign : List String := []                  -- binaries of another driver build / configuration / program name
   damaged : List String := []                  -- programs whose saved binary was damaged since it was written
   expects : List (String × String) := []       -- call ↦ the value the source text prescribes (string switch cases)
+  -- which version of every program is in memory (independent of the implementation's data structures: load numbers)
+  ctime : Nat := 0                             -- the driver's clock, from the `now` lines
+  loadCount : Nat := 0
+  mem : List (String × (Nat × Nat)) := []      -- program ↦ (number of the load that put it into memory, clock then)
+  links : List (String × List (String × Nat)) := []   -- program ↦ its parents and the load numbers it was linked with
+  poisoned : List (String × List (String × Nat)) := [] -- saved binary ↦ parents that were out of date when it was compiled
+  incsearch : List (String × List String) := []  -- program ↦ the candidates of one include directive, in search order
+  resolved : List (String × List (Option String)) := [] -- saved binary ↦ what each of its directives resolved to then
   deriving Inhabited
 
 def JState.flag (s : JState) (v : String) : JState := { s with bad := v :: s.bad }
@@ -232,6 +242,27 @@ def indirectInherits (s : JState) (prog : String) : List String :=
       let next := (frontier.flatMap (fun q => (declOf s q).inherits)).filter (fun q => !(seen.contains q))
       if next.isEmpty then seen else go next.eraseDups (seen ++ next.eraseDups) fuel
   (go direct direct 20).filter (fun q => !(direct.contains q))
+
+/-- the version of `p` with load number `g` is not what loading `p` now would give: it was replaced since, one of its
+    files was modified after it was loaded, or the same holds for a parent it is linked with -/
+def outdatedO (s : JState) : Nat → String → Nat → Bool
+  | 0, _, _ => true
+  | fuel + 1, p, g =>
+    match s.mem.lookup p with
+    | none => false          -- never seen entering memory: no claim
+    | some (g', t) =>
+      g' != g || (p :: (declOf s p).includes).any (fun f => match s.mt f with | some m => m > t | none => false) ||
+        ((s.links.lookup p).getD []).any (fun q => outdatedO s fuel q.1 q.2)
+
+/-- a program enters memory (compiled or loaded from its binary): a new load number, linked with the parents as loaded -/
+def registerLoad (s : JState) (prog : String) : JState :=
+  let g := s.loadCount + 1
+  let ls := (declOf s prog).inherits.map (fun p => (p, ((s.mem.lookup p).map (·.1)).getD 0))
+  { s with loadCount := g, mem := setKey s.mem prog (g, s.ctime), links := setKey s.links prog ls }
+
+/-- what every declared include directive of `prog` resolves to now: the first candidate that exists -/
+def resolveNow (s : JState) (prog : String) : List (Option String) :=
+  (s.incsearch.filter (·.1 == prog)).map (fun d => d.2.find? (fun c => (s.mt c).isSome))
 
 /-- the property's rule, computed from the history alone -/
 def staleReasons (s : JState) (prog : String) : List String :=
@@ -265,12 +296,16 @@ def caseLine (s : JState) (line : String) : JState :=
     | none => s
   | "prog" :: name :: rest =>
     { s with decls := { name := name, includes := csv (kv rest "inc"), inherits := csv (kv rest "inh"),
-                        save := kv rest "save" == "1", ssw := (kv rest "ssw").toNat? } :: s.decls.filter (·.name != name) }
+                        save := kv rest "save" == "1", ssw := (kv rest "ssw").toNat?,
+                        refuse := kv rest "refuse" == "1" } :: s.decls.filter (·.name != name) }
   | ["expect", call, res] => { s with expects := (call, res) :: s.expects.filter (·.1 != call) }
+  | ["now", t] => { s with ctime := max s.ctime (t.toNat?.getD 0) }
+  | "incsearch" :: prog :: cands => { s with incsearch := s.incsearch ++ [(prog, cands)] }
   | "usort" :: rest => { s with pendingUnit := s.pendingUnit ++ [("usort" :: rest)] }
   | "ureloc" :: rest => { s with pendingUnit := s.pendingUnit ++ [("ureloc" :: rest)] }
   | "upatch" :: rest => { s with pendingUnit := s.pendingUnit ++ [("upatch" :: rest)] }
   | "utimes" :: rest => { s with pendingUnit := s.pendingUnit ++ [("utimes" :: rest)] }
+  | "uqsort" :: rest => { s with pendingUnit := s.pendingUnit ++ [("uqsort" :: rest)] }
   | _ => s
 
 /-! ### unit outputs -/
@@ -321,6 +356,33 @@ def judgeUnit (cmd : List String) (out : List String) : List String :=
         got.getD i "" == want)
       if ok then [] else [s!"reloc-offsets-not-preserved got={r}"]
     | _ => [s!"ureloc-unexpected-output {out}"]
+  | "uqsort" :: _ =>
+    -- what sorting means, not how qsort.c does it: nothing torn, the same elements, and — when the comparison table is
+    -- a strict order on the values that occur — no later element below an earlier one
+    match out with
+    | ["qs", r] =>
+      let v := csvNat (kv cmd "v")
+      let m := (kv cmd "m").toNat?.getD 1
+      let sz := (kv cmd "sz").toNat?.getD 4
+      let c := (kv cmd "c").toList
+      let lt (x y : Nat) : Bool := c.getD (x * m + y) '0' == '-'
+      let got := csv r
+      if got.contains "torn" then ["qsort-element-torn"] else
+      let vals := got.map (fun e => ((e.splitOn ":").headD "").toNat?.getD 99999)
+      let tags := got.map (fun e => ((e.splitOn ":").getD 1 "").toNat?.getD 99999)
+      let permOk :=
+        if sz > 4 then isort (fun a b => decide (a < b)) tags == List.range v.length &&
+                       (vals.zip tags).all (fun p => v.getD p.2 99998 == p.1)
+        else isort (fun a b => decide (a < b)) vals == isort (fun a b => decide (a < b)) v
+      let dom := v.eraseDups
+      let strict := dom.all (fun x => dom.all (fun y => !(lt x y && lt y x) &&
+                      dom.all (fun z => !(lt x y && lt y z) || lt x z)))
+      let rec sortedFrom : List Nat → Bool
+        | [] => true
+        | x :: rest => rest.all (fun y => !(lt y x)) && sortedFrom rest
+      (if permOk then [] else [s!"qsort-not-a-permutation got={r}"]) ++
+      (if !strict || sortedFrom vals then [] else [s!"qsort-not-sorted got={r}"])
+    | _ => [s!"uqsort-unexpected-output {out}"]
   | "utimes" :: b :: f :: _ =>
     match out with
     | ["times", r] =>
@@ -401,16 +463,33 @@ def traceLine (s : JState) (unitSeen : Nat) (line : String) : JState × Nat :=
     let s := (staleReasons s name).foldl JState.flag s
     let s := if s.damaged.contains name then s.flag s!"damaged-binary-used {name}" else s
     let s := if s.foreign.contains name then s.flag s!"foreign-binary-used {name}" else s
-    ({ s with used := name :: s.used }, unitSeen)
-  | ["lb", _, "stale"] => (s, unitSeen)
+    -- the binary was compiled against a version of a parent that was already out of date then, and that parent has
+    -- been loaded again since: the layout in the binary is not the one the current sources give
+    let s := (((s.poisoned.lookup name).getD []).filter (fun q => ((s.mem.lookup q.1).map (·.1)) != some q.2)).foldl
+      (fun s q => s.flag s!"stale-binary-used {name} dep=compiled-against-older-version-of:{q.1}") s
+    -- an include directive that would now find another file (a new file earlier in the search path)
+    let s :=
+      match s.resolved.lookup name with
+      | some was =>
+        ((was.zip (resolveNow s name)).filter (fun (p : Option String × Option String) => p.1 != p.2)).foldl
+          (fun (s : JState) (p : Option String × Option String) =>
+            s.flag s!"stale-binary-used {name} dep=include-shadowed-by:{p.2.getD "?"}") s
+      | none => s
+    (registerLoad { s with used := name :: s.used } name, unitSeen)
+  | ["lb", name, "stale"] => (registerLoad s name, unitSeen)
   | ["lb", _, "needs", _] => (s, unitSeen)
   | "sv" :: name :: t :: _ =>
+    let old := ((s.links.lookup name).getD []).filter (fun q => outdatedO s 64 q.1 q.2)
     match t.toNat? with
     | some t =>
       let dm := s.damaged.filter (fun x => x != name)
       let fg := s.foreign.filter (fun x => x != name)
-      ({ s with binT := setKey s.binT name t, damaged := dm, foreign := fg }, unitSeen)
-    | none => (s.flag s!"save-failed {name}", unitSeen)
+      ({ s with binT := setKey s.binT name t, damaged := dm, foreign := fg, poisoned := setKey s.poisoned name old,
+                resolved := setKey s.resolved name (resolveNow s name) },
+       unitSeen)
+    | none =>
+      -- not written: right only when the program was compiled against an out-of-date parent or the master refuses
+      if old.isEmpty && !(declOf s name).refuse then (s.flag s!"save-failed {name}", unitSeen) else (s, unitSeen)
   | "restarted" :: _ => ({ s with simulTouchedSinceRestart := false }, unitSeen)
   | "D" :: tag :: rest =>
     let d := (s.cur.lookup tag).getD {}
@@ -434,7 +513,7 @@ def traceLine (s : JState) (unitSeen : Nat) (line : String) : JState × Nat :=
       if unitSeen + 1 ≥ unitOutputsOf cmd then ({ s with pendingUnit := more }, 0) else (s, unitSeen + 1)
     | [] => (s.flag s!"unexpected {line}", unitSeen)
   | t :: rest =>
-    if ["ft", "of", "ts", "reloc", "times"].contains t then
+    if ["ft", "of", "ts", "reloc", "times", "qs"].contains t then
       match s.pendingUnit with
       | cmd :: more =>
         let s := (judgeUnit cmd (t :: rest)).foldl JState.flag s
@@ -457,6 +536,15 @@ def judge (caseLines : List String) (trace : List String) : List String :=
       | c :: rest =>
         let s := caseLine s c
         match toks c with
+        | "reloadf" :: top :: _ =>
+          -- the reference compile of the current sources (no binaries involved): its dumps and call results are what
+          -- every later load from a binary is compared with
+          let blk := tr.takeWhile (fun l => !(l.startsWith "end "))
+          let after := tr.drop blk.length
+          let s := { s with top := top }
+          let s := (blk ++ after.take 1).foldl (fun s l => (traceLine s 0 l).1) s
+          let s := if after.isEmpty then s.flag s!"reload-did-not-finish {top}" else s
+          go rest (after.drop 1) s fuel
         | "reloadp" :: top :: _ =>
           let blk := tr.takeWhile (fun l => !(l.startsWith "end "))
           let after := tr.drop blk.length
@@ -480,12 +568,30 @@ def judge (caseLines : List String) (trace : List String) : List String :=
             then go rest tr' s fuel
             else go rest tr' (s.flag s!"badload-unexpected {b}") fuel
           | _ => go rest [] (s.flag "badload-without-output") fuel
+        | ["bindump", obj] =>
+          -- the bytes of a saved binary: they must be a well-formed file (checksum, every section inside the file)
+          -- that names the program it was saved for
+          let chunks := tr.takeWhile (fun l => l.startsWith s!"bin {obj} ")
+          let after := tr.drop chunks.length
+          let s :=
+            match after.head? with
+            | some l =>
+              if l.startsWith s!"binsum {obj} " && !chunks.isEmpty then
+                match decodeFile 4 (unhexBytes (String.join (chunks.map (fun l => ((toks l).getD 2 ""))))) with
+                | none => s.flag s!"saved-binary-undecodable {obj}"
+                | some b =>
+                  if b.name == (obj ++ ".c").toUTF8.toList then s
+                  else s.flag s!"saved-binary-names-another-program {obj}"
+              else if l == s!"bindump {obj} unavailable" && chunks.isEmpty then s
+              else s.flag s!"bindump-unexpected {l}"
+            | none => s.flag s!"bindump-without-output {obj}"
+          go rest (after.drop 1) s fuel
         | "restart" :: _ =>
           match tr with
           | l :: tr' => go rest tr' (traceLine s 0 l).1 fuel
           | [] => go rest [] (s.flag "restart-without-output") fuel
         | cmd :: _ =>
-          if ["usort", "ureloc", "upatch", "utimes"].contains cmd then
+          if ["usort", "ureloc", "upatch", "utimes", "uqsort"].contains cmd then
             let n := unitOutputsOf (toks c)
             let outs := tr.take n
             let (s, _) := outs.foldl (fun (p : JState × Nat) l => traceLine p.1 p.2 l) (s, 0)
